@@ -15,10 +15,12 @@ import (
 
 var recBoundary = ev.New("C14", "activation-boundary",
 	"the CSV deployment (BIP68 sequence locks, median-time lock-time finality) is installed as a real BIP9 deployment (bit 0, always started, never ending, window 3-6, threshold 1..window) so that it activates in the middle of a generated chain whose votes are drawn; "+
-		"at a generated parent a candidate block carries a transaction that is valid only without the CSV rules: a version-2 spend whose relative lock is one block too young, or a lock time that is final against the block's own timestamp but not against the median time past; "+
+		"at a generated parent a candidate block carries a transaction that is valid only without the CSV rules: a version-2 spend whose relative lock is one block too young (BIP68), a lock time that is final against the block's own timestamp but not against the median time past (BIP113), or a version-1 spend of a '1 CHECKSEQUENCEVERIFY' output (BIP112: a NOP before activation); "+
 		"oracle: the candidate is accepted iff the reference state machine says the deployment is NOT active for that block, i.e. the rules switch on exactly at the first block of the Active window; "+
 		"non-trivial = candidate placed in the window before / at / after the first Active block; distinct by (chain, parent, rule)",
 	"last-window-before-active", "first-active-block", "later-active", "long-before")
+
+var csvScript = []byte{0x51, 0xb2} // OP_1 OP_CHECKSEQUENCEVERIFY
 
 func TestActivationBoundary(t *testing.T) {
 	rapid.Check(t, func(t *rapid.T) {
@@ -50,7 +52,9 @@ func TestActivationBoundary(t *testing.T) {
 				ver |= 1
 			}
 			// time steps of several seconds so that block time and median time differ
-			cur = tr.Extend(cur, ce.BlockOpt{Version: ver, TimeDelta: int64(rapid.IntRange(2, 30).Draw(t, "dt"))})
+			// coinbase outputs pay to "1 CHECKSEQUENCEVERIFY": a NOP (anyone can spend) before the
+			// deployment is active, BIP112 afterwards (needs a version >= 2 spender with a relative lock >= 1)
+			cur = tr.Extend(cur, ce.BlockOpt{Version: ver, TimeDelta: int64(rapid.IntRange(2, 30).Draw(t, "dt")), PayScript: csvScript})
 		}
 		env, err := ce.NewEnv(&p, ce.EnvOpt{UtxoCacheMaxSize: 1 << 20})
 		if err != nil {
@@ -86,19 +90,28 @@ func TestActivationBoundary(t *testing.T) {
 		}
 		parent := path[ph]
 		activeForCandidate := refStateAfter(parent, csv, nd) == active
-		sp := ce.Spendable(parent.Utxo, parent.Height+1, 1)
+		var sp []wire.OutPoint
+		for _, o := range parent.Utxo.SortedOutpoints() {
+			c := parent.Utxo[o]
+			if string(c.PkScript) == string(csvScript) && !(c.Coinbase && parent.Height+1-c.Height < 1) {
+				sp = append(sp, o)
+			}
+		}
 		if len(sp) == 0 {
 			t.Skip("nothing spendable")
 		}
 		op := sp[rapid.IntRange(0, len(sp)-1).Draw(t, "coin")]
 		coin := parent.Utxo[op]
-		rule := rapid.SampledFrom([]string{"bip68-too-young", "locktime-between-mtp-and-blocktime"}).Draw(t, "rule")
+		rule := rapid.SampledFrom([]string{"bip68-too-young", "locktime-between-mtp-and-blocktime", "csv-opcode-version-1-spender"}).Draw(t, "rule")
 		var tx *wire.MsgTx
 		opt := ce.BlockOpt{}
 		switch rule {
 		case "bip68-too-young":
 			age := uint32(parent.Height + 1 - coin.Height)
 			tx = ce.SpendTx(2, []wire.OutPoint{op}, []*wire.TxOut{{Value: coin.Value, PkScript: ce.OpTrue}}, 0, age+1)
+		case "csv-opcode-version-1-spender":
+			// BIP112: CHECKSEQUENCEVERIFY fails for a transaction version below 2; BIP68 does not apply to version 1
+			tx = ce.SpendTx(1, []wire.OutPoint{op}, []*wire.TxOut{{Value: coin.Value, PkScript: ce.OpTrue}}, 0, 0xffffffff)
 		default:
 			// lock time = MTP(parent): not final against the median time, final against a later block timestamp
 			mtp := parent.MTP()
@@ -114,7 +127,7 @@ func TestActivationBoundary(t *testing.T) {
 		opt.Txs = []*wire.MsgTx{tx}
 		if activeForCandidate {
 			opt.Label, opt.Rule = ce.InvalidConnect, "csv-rule:"+rule
-			if rule != "bip68-too-young" {
+			if rule == "locktime-between-mtp-and-blocktime" {
 				opt.Label = ce.InvalidContext
 			}
 		}
@@ -134,6 +147,10 @@ func TestActivationBoundary(t *testing.T) {
 		recBoundary.Case(cl != "long-before", cl, ev.Hash(cand.Hash[:], []byte(rule)), func() any {
 			return map[string]any{"window": nd.Window, "threshold": nd.Threshold, "candidate_height": h, "first_active_height": firstActive, "rule": rule, "expected_valid": !activeForCandidate}
 		})
+		recBoundary.Count("rule:"+rule, 1)
+		if h == firstActive-1 {
+			recBoundary.Count("last-block-before-active", 1)
+		}
 		// side-chain candidates are only stored; use the template check when the parent is the tip, else deliver with a descendant
 		out := sel.DeliverBlock(cand)
 		_, _, err = env.Deliver(cand)
